@@ -118,7 +118,15 @@ SHAPES_MAP4 = (
 
 
 def _scal(s):
-    return int(s) if re.fullmatch(r"-?\d+", s) else s
+    if re.fullmatch(r"-?\d+", s):
+        return int(s)
+    if s in ("true", "false"):
+        return s == "true"
+    if re.fullmatch(r"-?\d+\.\d+", s):
+        return float(s)
+    if s == "''":
+        return ""
+    return s
 
 
 def leaf(tok):
@@ -750,11 +758,71 @@ def enumerated_pairs(cfg):
                    "extra_docs_3_4_slots": n_extra}
 
 
+def falsy_value_pairs():
+    """Anchored scalars whose VALUE is falsy (false, '', 0.0), defined and aliased only inside sequences -- and, as a
+    control, under a mapping key: a conflict is a conflict whatever the values are."""
+    items = []
+    for v1, v2 in (("false", "true"), ("''", "p"), ("0.0", "1.5"), ("true", "false"), ("false", "false")):
+        d1, d2 = "&x " + v1, "&x " + v2
+        for lt, rt in (
+                ({"s": [d1, "*x"]}, {"t": [d2, "*x"]}),
+                ({"s": [d1], "t": ["*x"]}, {"s": [d2]}),
+                ([d1, "*x"], [d2, "*x"]),
+                ({"s": [[d1], "*x"]}, {"s": [[d2]]}),
+                ({"a": d1, "s": ["*x"]}, {"b": d2, "s": ["*x"]}),
+        ):
+            for st in (("block", "block"), ("flow", "flow")):
+                items.append((lt, rt, st, None))
+    return items
+
+
+def cli_policy_sources(coll):
+    """The anchor policy reaches the merge from the command line OR from the INI file's [defaults] section: yaml-merge with
+    `[defaults] anchors = P` (and no --anchors) does what `--anchors=P` does, and --anchors outranks the file."""
+    import tempfile
+    import shutil
+    from rtc import c16
+    d = tempfile.mkdtemp(prefix="c10cli-")
+    try:
+        pairs = (("a: &x 1\nb: *x\n", "c: &x 2\nd: *x\n"), ("a: &x 1\nb: *x\n", "c: &x 1\nd: *x\n"), ("s: [&x 1, *x]\n", "t: [&x 2, *x]\n"))
+        for pi, (lt, rt) in enumerate(pairs):
+            lf, rf = os.path.join(d, "l%d.yaml" % pi), os.path.join(d, "r%d.yaml" % pi)
+            open(lf, "w").write(lt)
+            open(rf, "w").write(rt)
+            for pol in ANCHOR_POLICIES:
+                ini = os.path.join(d, "%s.ini" % pol)
+                open(ini, "w").write("[defaults]\nanchors = %s\n" % pol)
+                by_cli = c16.run_cli("merge", ["-S", "--anchors=" + pol, lf, rf])
+                by_ini = c16.run_cli("merge", ["-S", "-c", ini, lf, rf])
+                inp = {"check": "cli-policy-source", "lhs_yaml": lt, "rhs_yaml": rt, "anchors": pol}
+                coll.case(("cli-policy", pi, pol, by_cli["code"], by_ini["code"]))
+                if (by_cli["code"], by_cli["out"]) != (by_ini["code"], by_ini["out"]):
+                    coll.witness("C10/policy-from-ini-defaults-differs-from-the-same-policy-on-the-command-line/%s" % pol,
+                                 "yaml-merge with [defaults] anchors = %s in the --config file does not do what --anchors=%s does" % (pol, pol),
+                                 inp, observed={"exit": by_ini["code"], "out": by_ini["out"][:200], "err": by_ini["err"][-200:]},
+                                 expected={"exit": by_cli["code"], "out": by_cli["out"][:200]})
+                for other in ANCHOR_POLICIES:
+                    if other == pol:
+                        continue
+                    both = c16.run_cli("merge", ["-S", "-c", ini, "--anchors=" + other, lf, rf])
+                    want = c16.run_cli("merge", ["-S", "--anchors=" + other, lf, rf])
+                    if (both["code"], both["out"]) != (want["code"], want["out"]):
+                        coll.witness("C10/command-line-policy-does-not-outrank-ini-defaults",
+                                     "--anchors=%s together with [defaults] anchors = %s is not --anchors=%s" % (other, pol, other),
+                                     dict(inp, cli=other), observed={"exit": both["code"], "out": both["out"][:200]},
+                                     expected={"exit": want["code"], "out": want["out"][:200]})
+    finally:
+        shutil.rmtree(d, ignore_errors=True)
+
+
 def run(tier="quick", seed=0, jobs=None):
     cfg = TIERS[tier]
     coll = harness.Collector(max_samples=8)
+    cli_policy_sources(coll)
     policies = [(a, mp) for a in ANCHOR_POLICIES for mp in cfg["merge_policies"]]
     items, counts = enumerated_pairs(cfg)
+    items = items + falsy_value_pairs()
+    counts["falsy_value_pairs"] = len(falsy_value_pairs())
     samples = []
     for res in harness.pmap_chunks(_work, items, jobs=jobs, chunk=60, extra=(policies,)):
         samples.extend(res.pop("samples"))
@@ -800,6 +868,11 @@ def run(tier="quick", seed=0, jobs=None):
 
 def replay(inp):
     """Re-run one witness input natively; the witness dict if it still fails, else None."""
+    if inp.get("check") == "cli-policy-source":
+        coll = harness.Collector()
+        cli_policy_sources(coll)
+        ws = [w for w in coll.witnesses.values() if w["key"].endswith("/" + inp["anchors"]) or "outrank" in w["key"]]
+        return ws[0] if ws else None
     res = evaluate(inp)
     if "lhs_yaml" in inp and (inp["lhs_yaml"] != res["ctx"]["lhs_yaml"] or inp["rhs_yaml"] != res["ctx"]["rhs_yaml"]):
         raise AssertionError("replay input renders to other YAML text than recorded")
